@@ -1,1 +1,595 @@
-pub fn selftest() -> bool { true }
+//! Independent cmap writer (from an abstract mapping + layout choices) and reader.
+
+use super::{be16, be32, search_fields, W};
+use crate::rt::Rng;
+use std::collections::BTreeMap;
+
+/// code -> glyph id (entries with glyph 0 are allowed: "explicitly unmapped inside a range")
+pub type Map = BTreeMap<u32, u16>;
+
+#[derive(Clone, Debug)]
+pub struct Seg4 {
+    pub start: u16,
+    pub end: u16,
+    pub kind: Seg4Kind,
+}
+#[derive(Clone, Debug)]
+pub enum Seg4Kind {
+    /// glyph = code + delta (mod 65536)
+    Delta(u16),
+    /// glyphIdArray slice `index`, with idDelta applied to non-zero entries
+    Array { id_delta: u16, array: usize },
+}
+
+/// Layout of a format 4 subtable: segments + glyphIdArray slices (possibly shared).
+#[derive(Clone, Debug, Default)]
+pub struct Layout4 {
+    pub segs: Vec<Seg4>,
+    pub arrays: Vec<Vec<u16>>, // raw stored values
+}
+
+impl Layout4 {
+    /// Choose a random valid layout for `map` (codes <= 0xFFFF). Every layout decodes to `map`
+    /// under the OpenType rules; codes not in `map` decode to 0.
+    pub fn choose(map: &Map, rng: &mut Rng) -> Layout4 {
+        let mut l = Layout4::default();
+        let codes: Vec<(u16, u16)> = map.iter().filter(|(c, _)| **c <= 0xFFFF).map(|(c, g)| (*c as u16, *g)).collect();
+        let mut i = 0;
+        while i < codes.len() {
+            // grow a segment: contiguous codes, optionally bridging small gaps (array kind only)
+            let allow_gaps = rng.chance(1, 3);
+            let max_len = 1 + rng.small(40);
+            let mut j = i;
+            while j + 1 < codes.len() && (j + 1 - i) < max_len {
+                let gap = codes[j + 1].0 - codes[j].0;
+                if gap == 1 || (allow_gaps && gap <= 4) {
+                    j += 1;
+                } else {
+                    break;
+                }
+            }
+            let (start, end) = (codes[i].0, codes[j].0);
+            let contiguous = (end - start) as usize == j - i;
+            let delta_ok = contiguous
+                && codes[i..=j].iter().all(|(c, g)| *g != 0 && g.wrapping_sub(*c) == codes[i].1.wrapping_sub(codes[i].0));
+            if delta_ok && rng.chance(2, 3) {
+                l.segs.push(Seg4 { start, end, kind: Seg4Kind::Delta(codes[i].1.wrapping_sub(codes[i].0)) });
+            } else {
+                // array kind; pick an idDelta such that no mapped glyph equals it (stored value would be 0)
+                let mut id_delta = 0u16;
+                if rng.chance(1, 2) {
+                    for _ in 0..8 {
+                        let d = match rng.below(3) {
+                            0 => rng.u16(),
+                            1 => 1 + rng.below(20) as u16,
+                            _ => 0xFFFF - rng.below(20) as u16,
+                        };
+                        if codes[i..=j].iter().all(|(_, g)| *g != d) {
+                            id_delta = d;
+                            break;
+                        }
+                    }
+                }
+                let mut arr = Vec::new();
+                let mut k = i;
+                for c in start..=end {
+                    if k <= j && codes[k].0 == c {
+                        let g = codes[k].1;
+                        arr.push(if g == 0 { 0 } else { g.wrapping_sub(id_delta) });
+                        k += 1;
+                    } else {
+                        arr.push(0);
+                    }
+                    if c == u16::MAX {
+                        break;
+                    }
+                }
+                // share an identical earlier slice sometimes
+                let shared = l.arrays.iter().position(|a| *a == arr);
+                let array = match shared {
+                    Some(ix) if rng.bool() => ix,
+                    _ => {
+                        l.arrays.push(arr);
+                        l.arrays.len() - 1
+                    }
+                };
+                l.segs.push(Seg4 { start, end, kind: Seg4Kind::Array { id_delta, array } });
+            }
+            i = j + 1;
+        }
+        // mandatory final segment
+        if l.segs.last().map_or(true, |s| s.end != 0xFFFF) {
+            l.segs.push(Seg4 { start: 0xFFFF, end: 0xFFFF, kind: Seg4Kind::Delta(1) });
+        }
+        l
+    }
+
+    pub fn write(&self, language: u16) -> Vec<u8> {
+        let n = self.segs.len();
+        // glyphIdArray = concatenation of slices
+        let mut arr_off = Vec::new();
+        let mut flat: Vec<u16> = Vec::new();
+        for a in &self.arrays {
+            arr_off.push(flat.len());
+            flat.extend_from_slice(a);
+        }
+        let mut w = W::new();
+        w.u16(4).u16(0).u16(language).u16((n * 2) as u16);
+        let (sr, es, rs) = search_fields(n as u16, 2);
+        w.u16(sr).u16(es).u16(rs);
+        for s in &self.segs {
+            w.u16(s.end);
+        }
+        w.u16(0);
+        for s in &self.segs {
+            w.u16(s.start);
+        }
+        for s in &self.segs {
+            match s.kind {
+                Seg4Kind::Delta(d) => w.u16(d),
+                Seg4Kind::Array { id_delta, .. } => w.u16(id_delta),
+            };
+        }
+        for (i, s) in self.segs.iter().enumerate() {
+            match s.kind {
+                Seg4Kind::Delta(_) => w.u16(0),
+                Seg4Kind::Array { array, .. } => w.u16(((n - i) * 2 + arr_off[array] * 2) as u16),
+            };
+        }
+        for v in &flat {
+            w.u16(*v);
+        }
+        let len = w.len();
+        w.set_u16(2, len.min(0xFFFF) as u16);
+        w.b
+    }
+    pub fn byte_len(&self) -> usize {
+        16 + 8 * self.segs.len() + 2 * self.arrays.iter().map(|a| a.len()).sum::<usize>()
+    }
+}
+
+pub fn write_format0(map: &Map, language: u16) -> Vec<u8> {
+    let mut w = W::new();
+    w.u16(0).u16(262).u16(language);
+    for c in 0..256u32 {
+        w.u8(map.get(&c).copied().unwrap_or(0).min(255) as u8);
+    }
+    w.b
+}
+
+pub fn write_format6(map: &Map, language: u16, rng: &mut Rng) -> Vec<u8> {
+    let codes: Vec<u32> = map.keys().copied().filter(|c| *c <= 0xFFFF).collect();
+    let (first, last) = match (codes.first(), codes.last()) {
+        (Some(f), Some(l)) => (*f, *l),
+        _ => (rng.below(100) as u32, 0),
+    };
+    let count = if codes.is_empty() { 0 } else { last - first + 1 };
+    let mut w = W::new();
+    w.u16(6).u16((10 + 2 * count) as u16).u16(language).u16(first as u16).u16(count as u16);
+    for c in first..first + count {
+        w.u16(map.get(&c).copied().unwrap_or(0));
+    }
+    w.b
+}
+
+pub fn write_format10(map: &Map, language: u32) -> Vec<u8> {
+    let (first, last) = match (map.keys().next(), map.keys().last()) {
+        (Some(f), Some(l)) => (*f, *l),
+        _ => (0, 0),
+    };
+    let count = if map.is_empty() { 0 } else { last - first + 1 };
+    let mut w = W::new();
+    w.u16(10).u16(0).u32(20 + 2 * count).u32(language).u32(first).u32(count);
+    for c in first..first + count {
+        w.u16(map.get(&c).copied().unwrap_or(0));
+    }
+    w.b
+}
+
+/// Groups of (start, end, startGlyph) covering exactly the non-zero entries of `map`; random splits.
+pub fn groups12(map: &Map, rng: &mut Rng) -> Vec<(u32, u32, u32)> {
+    let mut groups: Vec<(u32, u32, u32)> = Vec::new();
+    for (&c, &g) in map {
+        if g == 0 {
+            continue;
+        }
+        if let Some(last) = groups.last_mut() {
+            if last.1 + 1 == c && last.2 + (c - last.0) == g as u32 && !rng.chance(1, 5) {
+                last.1 = c;
+                continue;
+            }
+        }
+        groups.push((c, c, g as u32));
+    }
+    groups
+}
+
+pub fn write_format12(groups: &[(u32, u32, u32)], language: u32) -> Vec<u8> {
+    let mut w = W::new();
+    w.u16(12).u16(0).u32(16 + 12 * groups.len() as u32).u32(language).u32(groups.len() as u32);
+    for g in groups {
+        w.u32(g.0).u32(g.1).u32(g.2);
+    }
+    w.b
+}
+
+/// Format 2 (high-byte mapping). `single`: one-byte codes; `double`: lead byte -> (first low byte, glyphs).
+#[derive(Clone, Debug, Default)]
+pub struct Layout2 {
+    pub single: BTreeMap<u8, u16>,
+    pub double: BTreeMap<u8, (u8, Vec<u16>)>,
+    pub deltas: BTreeMap<u8, u16>, // idDelta per lead byte (0 key = sub-header 0)
+}
+
+impl Layout2 {
+    pub fn expected(&self) -> Map {
+        let mut m = Map::new();
+        for (&b, &g) in &self.single {
+            if !self.double.contains_key(&b) {
+                m.insert(b as u32, g);
+            }
+        }
+        for (&hi, (first, gl)) in &self.double {
+            for (i, &g) in gl.iter().enumerate() {
+                m.insert(((hi as u32) << 8) | (*first as u32 + i as u32), g);
+            }
+        }
+        m
+    }
+    pub fn write(&self, language: u16) -> Vec<u8> {
+        // sub-header 0: one-byte codes, firstCode 0, entryCount 256; then one per lead byte
+        let leads: Vec<u8> = self.double.keys().copied().collect();
+        let nsub = 1 + leads.len();
+        let mut w = W::new();
+        w.u16(2).u16(0).u16(language);
+        for b in 0..256u32 {
+            let key = leads.iter().position(|&l| l as u32 == b).map(|p| (p + 1) * 8).unwrap_or(0);
+            w.u16(key as u16);
+        }
+        // glyph arrays laid out after the sub-headers
+        let mut arrays: Vec<Vec<u16>> = Vec::new();
+        let d0 = self.deltas.get(&0).copied().unwrap_or(0);
+        let mut a0 = Vec::new();
+        for b in 0..256u32 {
+            let g = if self.double.contains_key(&(b as u8)) { 0 } else { self.single.get(&(b as u8)).copied().unwrap_or(0) };
+            a0.push(if g == 0 { 0 } else { g.wrapping_sub(d0) });
+        }
+        arrays.push(a0);
+        for l in &leads {
+            let d = self.deltas.get(l).copied().unwrap_or(0);
+            arrays.push(self.double[l].1.iter().map(|&g| if g == 0 { 0 } else { g.wrapping_sub(d) }).collect());
+        }
+        let sub_at = w.len();
+        let arrays_at = sub_at + 8 * nsub;
+        let mut off = arrays_at;
+        for (k, a) in arrays.iter().enumerate() {
+            let (first, count, delta) = if k == 0 {
+                (0u16, 256u16, d0)
+            } else {
+                let l = leads[k - 1];
+                (self.double[&l].0 as u16, a.len() as u16, self.deltas.get(&l).copied().unwrap_or(0))
+            };
+            let range_off_pos = sub_at + 8 * k + 6;
+            w.u16(first).u16(count).u16(delta).u16((off - range_off_pos) as u16);
+            off += 2 * a.len();
+        }
+        for a in &arrays {
+            for v in a {
+                w.u16(*v);
+            }
+        }
+        let len = w.len();
+        w.set_u16(2, len.min(0xFFFF) as u16);
+        w.b
+    }
+}
+
+#[derive(Clone, Debug)]
+pub struct Record {
+    pub platform: u16,
+    pub encoding: u16,
+    pub subtable: usize,
+}
+
+/// cmap table = header + records + subtables (records may share subtables).
+pub fn write_cmap(records: &[Record], subtables: &[Vec<u8>]) -> Vec<u8> {
+    let mut w = W::new();
+    w.u16(0).u16(records.len() as u16);
+    let mut offs = Vec::new();
+    let mut at = 4 + 8 * records.len();
+    for s in subtables {
+        offs.push(at);
+        at += s.len();
+        at += at % 2;
+    }
+    for r in records {
+        w.u16(r.platform).u16(r.encoding).u32(offs[r.subtable] as u32);
+    }
+    for s in subtables {
+        w.bytes(s);
+        if w.len() % 2 == 1 {
+            w.u8(0);
+        }
+    }
+    w.b
+}
+
+// ---- independent reader -------------------------------------------------------------------------
+
+#[derive(Clone, Debug)]
+pub struct EncRec {
+    pub platform: u16,
+    pub encoding: u16,
+    pub offset: u32,
+}
+
+pub fn read_records(cmap: &[u8]) -> Option<Vec<EncRec>> {
+    let n = be16(cmap, 2)? as usize;
+    (0..n)
+        .map(|i| {
+            Some(EncRec { platform: be16(cmap, 4 + 8 * i)?, encoding: be16(cmap, 6 + 8 * i)?, offset: be32(cmap, 8 + 8 * i)? })
+        })
+        .collect()
+}
+
+pub fn subtable_format(cmap: &[u8], off: usize) -> Option<u16> {
+    be16(cmap, off)
+}
+
+/// Look up one code in the subtable at `off` per the OpenType rules. None = malformed / out of table.
+pub fn lookup(cmap: &[u8], off: usize, code: u32) -> Option<u16> {
+    let d = cmap.get(off..)?;
+    match be16(d, 0)? {
+        0 => {
+            if code < 256 {
+                d.get(6 + code as usize).map(|&g| g as u16)
+            } else {
+                Some(0)
+            }
+        }
+        2 => {
+            if code > 0xFFFF {
+                return Some(0);
+            }
+            let (hi, lo) = ((code >> 8) as usize, (code & 0xFF) as usize);
+            let key_of = |b: usize| be16(d, 6 + 2 * b).map(|k| (k / 8) as usize);
+            let k = if hi == 0 {
+                if key_of(lo)? != 0 {
+                    return Some(0); // a lone lead byte is not a character
+                }
+                0
+            } else {
+                let k = key_of(hi)?;
+                if k == 0 {
+                    return Some(0); // high byte is not a lead byte
+                }
+                k
+            };
+            let sh = 6 + 512 + 8 * k;
+            let first = be16(d, sh)? as usize;
+            let count = be16(d, sh + 2)? as usize;
+            let delta = be16(d, sh + 4)?;
+            let ro = be16(d, sh + 6)? as usize;
+            if lo < first || lo >= first + count {
+                return Some(0);
+            }
+            let v = be16(d, sh + 6 + ro + 2 * (lo - first))?;
+            Some(if v == 0 { 0 } else { v.wrapping_add(delta) })
+        }
+        4 => {
+            if code > 0xFFFF {
+                return Some(0);
+            }
+            let c = code as u16;
+            let n = (be16(d, 6)? / 2) as usize;
+            let ends = 14;
+            let starts = ends + 2 * n + 2;
+            let deltas = starts + 2 * n;
+            let ros = deltas + 2 * n;
+            for i in 0..n {
+                let end = be16(d, ends + 2 * i)?;
+                if c <= end {
+                    let start = be16(d, starts + 2 * i)?;
+                    if c < start {
+                        return Some(0);
+                    }
+                    let delta = be16(d, deltas + 2 * i)?;
+                    let ro = be16(d, ros + 2 * i)?;
+                    if ro == 0 {
+                        return Some(c.wrapping_add(delta));
+                    }
+                    let at = ros + 2 * i + ro as usize + 2 * (c - start) as usize;
+                    let v = be16(d, at)?;
+                    return Some(if v == 0 { 0 } else { v.wrapping_add(delta) });
+                }
+            }
+            Some(0)
+        }
+        6 => {
+            let first = be16(d, 6)? as u32;
+            let count = be16(d, 8)? as u32;
+            if code >= first && code < first + count {
+                be16(d, 10 + 2 * (code - first) as usize)
+            } else {
+                Some(0)
+            }
+        }
+        10 => {
+            let first = be32(d, 12)?;
+            let count = be32(d, 16)?;
+            if code >= first && (code - first) < count {
+                be16(d, 20 + 2 * (code - first) as usize)
+            } else {
+                Some(0)
+            }
+        }
+        12 => {
+            let n = be32(d, 12)? as usize;
+            // binary search over groups
+            let (mut lo, mut hi) = (0usize, n);
+            while lo < hi {
+                let mid = (lo + hi) / 2;
+                let s = be32(d, 16 + 12 * mid)?;
+                let e = be32(d, 20 + 12 * mid)?;
+                if code < s {
+                    hi = mid;
+                } else if code > e {
+                    lo = mid + 1;
+                } else {
+                    let g = be32(d, 24 + 12 * mid)?.checked_add(code - s)?;
+                    return Some(if g > 0xFFFF { 0 } else { g as u16 });
+                }
+            }
+            Some(0)
+        }
+        _ => None,
+    }
+}
+
+/// All (code, glyph != 0) pairs of a subtable (independent enumeration).
+pub fn enumerate(cmap: &[u8], off: usize) -> Option<Vec<(u32, u16)>> {
+    let d = cmap.get(off..)?;
+    let mut out = Vec::new();
+    let mut push = |c: u32, g: Option<u16>| {
+        if let Some(g) = g {
+            if g != 0 {
+                out.push((c, g));
+            }
+        }
+    };
+    match be16(d, 0)? {
+        0 => {
+            for c in 0..256 {
+                push(c, lookup(cmap, off, c));
+            }
+        }
+        2 | 4 | 6 => {
+            for c in 0..=0xFFFFu32 {
+                push(c, lookup(cmap, off, c));
+            }
+        }
+        10 => {
+            let first = be32(d, 12)?;
+            let count = be32(d, 16)?.min(0x11_0000);
+            for c in first..first.saturating_add(count) {
+                push(c, lookup(cmap, off, c));
+            }
+        }
+        12 => {
+            let n = be32(d, 12)? as usize;
+            for i in 0..n {
+                let s = be32(d, 16 + 12 * i)?;
+                let e = be32(d, 20 + 12 * i)?;
+                if e < s || e - s > 0x11_0000 {
+                    return None;
+                }
+                for c in s..=e {
+                    push(c, lookup(cmap, off, c));
+                }
+            }
+        }
+        _ => return None,
+    }
+    Some(out)
+}
+
+/// The preference order allsorts documents for choosing a subtable. Returns (record index, encoding kind).
+#[derive(Copy, Clone, Debug, PartialEq, Eq)]
+pub enum EncKind {
+    Unicode,
+    Symbol,
+    MacRoman,
+    Big5,
+}
+pub fn select(records: &[EncRec]) -> Option<(usize, EncKind)> {
+    let find = |p: u16, e: u16| records.iter().position(|r| r.platform == p && r.encoding == e);
+    if let Some(i) = find(3, 10) {
+        return Some((i, EncKind::Unicode));
+    }
+    if let Some(i) = find(3, 1) {
+        return Some((i, EncKind::Unicode));
+    }
+    if let Some(i) = find(0, 4) {
+        return Some((i, EncKind::Unicode));
+    }
+    if let Some(i) = records.iter().position(|r| r.platform == 0) {
+        return Some((i, EncKind::Unicode));
+    }
+    if let Some(i) = find(3, 0) {
+        return Some((i, EncKind::Symbol));
+    }
+    if let Some(i) = find(1, 0) {
+        return Some((i, EncKind::MacRoman));
+    }
+    if let Some(i) = find(3, 4) {
+        return Some((i, EncKind::Big5));
+    }
+    None
+}
+
+pub fn selftest() -> bool {
+    // every writer must be read back by the independent reader
+    let mut rng = Rng::new(7);
+    let mut ok = true;
+    for round in 0..200 {
+        let mut map = Map::new();
+        let n = rng.below(60);
+        let mut c = rng.below(300) as u32;
+        for _ in 0..n {
+            c += 1 + rng.small(300) as u32;
+            if c > 0xFFFF {
+                break;
+            }
+            map.insert(c, 1 + rng.below(2000) as u16);
+        }
+        if round % 5 == 0 {
+            map.insert(0xFFFF, 7);
+        }
+        let l4 = Layout4::choose(&map, &mut rng);
+        let t = write_cmap(&[Record { platform: 3, encoding: 1, subtable: 0 }], &[l4.write(0)]);
+        let off = read_records(&t).unwrap()[0].offset as usize;
+        for (&c, &g) in &map {
+            if lookup(&t, off, c) != Some(g) {
+                eprintln!("cmap selftest: format 4 code {:#x} expected {} got {:?}", c, g, lookup(&t, off, c));
+                ok = false;
+            }
+        }
+        for probe in [0u32, 1, 0xFFFE, 0xFFFF, 0x10000] {
+            if !map.contains_key(&probe) && lookup(&t, off, probe) != Some(0) {
+                ok = false;
+            }
+        }
+        let g12 = groups12(&map, &mut rng);
+        let t = write_cmap(&[Record { platform: 3, encoding: 10, subtable: 0 }], &[write_format12(&g12, 0)]);
+        let off = read_records(&t).unwrap()[0].offset as usize;
+        for (&c, &g) in &map {
+            if lookup(&t, off, c) != Some(g) {
+                ok = false;
+            }
+        }
+        let t6 = write_cmap(&[Record { platform: 0, encoding: 3, subtable: 0 }], &[write_format6(&map, 0, &mut rng)]);
+        let off = read_records(&t6).unwrap()[0].offset as usize;
+        for (&c, &g) in &map {
+            if lookup(&t6, off, c) != Some(g) {
+                ok = false;
+            }
+        }
+    }
+    let mut l2 = Layout2::default();
+    l2.single.insert(0x41, 5);
+    l2.single.insert(0x81, 9); // shadowed by lead byte
+    l2.double.insert(0x81, (0x40, vec![10, 0, 12]));
+    l2.deltas.insert(0x81, 3);
+    let t = write_cmap(&[Record { platform: 3, encoding: 4, subtable: 0 }], &[l2.write(0)]);
+    let off = read_records(&t).unwrap()[0].offset as usize;
+    ok &= lookup(&t, off, 0x41) == Some(5);
+    ok &= lookup(&t, off, 0x81) == Some(0);
+    ok &= lookup(&t, off, 0x8140) == Some(10);
+    ok &= lookup(&t, off, 0x8141) == Some(0);
+    ok &= lookup(&t, off, 0x8142) == Some(12);
+    ok &= lookup(&t, off, 0x8143) == Some(0);
+    if !ok {
+        eprintln!("cmap selftest FAILED");
+    }
+    ok
+}
